@@ -136,6 +136,9 @@ inductive HdrResult where
   | panicSetPath
   /-- the entry check returned `errUnexpectedAddrType` (local address; nothing was built) -/
   | errAddr
+  /-- `udp.SetDSCP(conn, c.DSCP)`: `panic("invalid argument: dscp must not be greater than 63")` — a
+      configuration value (`timeservice.go` refuses it at start-up: `dscp(cfg)`) -/
+  | panicDSCP
 deriving Repr, DecidableEq
 
 /-- `addr.HostIP(ip.Unmap())` handed to `SetSrcAddr` / `SetDstAddr`: type `T4Ip` with 4 raw bytes or
@@ -150,7 +153,8 @@ def held (b : List Nat) : List Nat := (unmapIP b).getD b
 def l4UDP : Nat := 17
 def end2EndClass : Nat := 201
 
-/-- The request header. `dscp` = `c.DSCP` (uint8: `c.DSCP << 2` wraps at 256), `localPort` = port of
+/-- The request header. `dscp` = `c.DSCP` (uint8; at most 63, else `SetDSCP` panics right after the socket was
+    opened, so `c.DSCP << 2` never wraps), `localPort` = port of
     the exchange's own socket, `setPathOk` = `SetPath` succeeded (always for the paths a daemon or
     the intra-AS constructor hands out), `withAuth` = the authenticator option was added. -/
 def mkScionRequestHeader (dscp : Nat) (localIA : Nat) (localIP : List Nat) (remoteIA : Nat)
@@ -158,6 +162,7 @@ def mkScionRequestHeader (dscp : Nat) (localIA : Nat) (localIP : List Nat) (remo
   match hostOfIP localIP with
   | none => .errAddr
   | some src =>
+    if dscp > 63 then .panicDSCP else
     match hostOfIP (held remoteIP) with
     | none => .panicAddr
     | some dst =>
